@@ -20,8 +20,8 @@ the samples up to `N = 8`):
   odd `k`: the form `Q` of C07 is constant along walks over `left_a_minimal(k)`, so strings of
   different `Q` are never joined, and `compile_target` returns NOTHING for a target `V ⊗ I…I` whose
   left block has an even number of non-identity letters.
-Not proved: that the fuel of the model's loops is never exhausted (the out-of-fuel result is a
-separate error value, never observed); that the raise at even `k` is unavoidable for those targets.
+That the fuel of the model's loops is never exhausted, and the exact exceptions for odd `k`, are in
+`Properties/C06Total.lean`.  Not proved: that the raise at even `k` is unavoidable for those targets.
 -/
 import PauLieVerif.Proofs.CompilerSearchOdd
 import PauLieVerif.Properties.C06
